@@ -537,9 +537,6 @@ def a_hier(me, d):
     if eiv[0][0, 0] >= riv[0][-1, 1]:
         c.verdict = UNSPEC
         return c
-    if riv[0][-1, 1] < 10 * fs or eiv[0][-1, 1] < 10 * fs:
-        c.verdict, c.why = UNSPEC, "annotation shorter than ten analysis frames (frame-sampled metrics undefined on a handful of frames)"
-        return c
     c.verdict = VALID
     c.must_return = [ev]
     if riv[0][-1, 1] == eiv[0][-1, 1]:
@@ -758,8 +755,70 @@ def gen_plan(rng, tier, i):
                 if rng.random() < 0.5:
                     files[name]["dev"] = {"chunks": [rng.choice([1, 3, 7, 16]) for _ in range(3)],
                                           "eintr": sorted(set(rng.randrange(0, 8) for _ in range(2)))}
-        steps.append({"task": task, "files": files, "access": rng.choice(["path", "path", "stringio"]), "fault": fault, "mode": mode})
+        edit = None
+        if rng.random() < 0.25:
+            # a second act for this step: the caller edits one of the LOADED arrays in place (a single-value
+            # corruption, same objects) after the first evaluation and evaluates again
+            edit = {"kind": rng.choice(["unsort", "huge", "negative", "zero_duration", "freq_range", "pitch_zero", "tempo_negative"]),
+                    "side": rng.choice(["ref", "est"]), "pick": rng.random()}
+        steps.append({"task": task, "files": files, "access": rng.choice(["path", "path", "stringio"]), "fault": fault, "mode": mode,
+                      "edit": edit})
     return {"prop": PROP, "cfg": cfg, "steps": steps}
+
+
+def apply_edit(task, d, edit):
+    """In-place single-value corruption of a loaded array (the caller's own objects).  -> description or None."""
+    import numpy as np
+
+    side, kind, pick = edit["side"], edit["kind"], edit["pick"]
+
+    def idx(n):
+        return min(n - 1, int(pick * n))
+
+    if task in ("beat", "onset", "alignment"):
+        a = d[side]
+        if kind == "unsort" and a.size >= 2 and a[0] != a[-1]:
+            a[0], a[-1] = a[-1], a[0]
+            return "swapped first and last %s event in place" % side
+        if kind == "huge" and a.size >= 1 and task != "alignment":
+            a[-1] = 1e6
+            return "set the last %s event to 1e6 s in place" % side
+        if kind == "negative" and a.size >= 1 and task == "alignment":
+            a[0] = -1.0
+            return "set the first %s timestamp to -1 in place" % side
+        return None
+    if task in ("segment", "chord", "transcription", "transcription_velocity"):
+        iv = d[side][0]
+        if kind == "zero_duration" and iv.shape[0] >= 1:
+            k = idx(iv.shape[0])
+            iv[k, 1] = iv[k, 0]
+            return "set %s interval %d to zero duration in place" % (side, k)
+        if kind == "negative" and iv.shape[0] >= 1:
+            iv[0, 0] = -0.5
+            return "set the first %s start time to -0.5 in place" % side
+        if kind == "pitch_zero" and task.startswith("transcription") and d[side][1].size >= 1:
+            k = idx(d[side][1].size)
+            d[side][1][k] = 0.0
+            return "set %s pitch %d to 0 Hz in place" % (side, k)
+        return None
+    if task == "multipitch":
+        t, fr = d[side]
+        if kind == "unsort" and t.size >= 2 and t[0] != t[-1]:
+            t[0], t[-1] = t[-1], t[0]
+            return "swapped first and last %s time in place" % side
+        if kind == "freq_range":
+            ks = [k for k, f in enumerate(fr) if f.size]
+            if ks:
+                k = ks[idx(len(ks))]
+                fr[k][0] = 10.0
+                return "set a %s frequency to 10 Hz in place" % side
+        return None
+    if task == "tempo":
+        if kind == "tempo_negative":
+            d[side][0][0] = -abs(d[side][0][0]) - 1.0
+            return "negated the first %s tempo in place" % side
+        return None
+    return None
 
 
 # --------------------------------------------------------------------------------------
@@ -816,13 +875,37 @@ def execute(plan, want_logs=False):
             stats.see("tuples", (task, fk, "LOAD_FAILED", "-", failed))
             log.add("step", n, task, fk, "load_failed", failed)
             continue
-        case = TASKS[task][1](me, data)
+        acts = [(fk, None)]
+        if step.get("edit"):
+            acts.append(("inplace:" + step["edit"]["kind"], step["edit"]))
+        first_verdict = None
+        for fk, edit in acts:
+            if edit is not None:
+                if first_verdict != VALID:
+                    break
+                what = apply_edit(task, data, edit)
+                if what is None:
+                    break
+                stats.inc("fault.inplace_edit." + edit["kind"])
+            case = TASKS[task][1](me, data)
+            if edit is None:
+                first_verdict = case.verdict
+            _judge_case(n, task, fk, case, step, stats, log, report, what if edit is not None else None)
+    for k, v in fired.items():
+        stats.inc("fault.dev." + k, v)
+    return {"violations": violations, "stats": stats.dump(), "log_digest": log.digest(), "n_events": log.n,
+            "log_events": log.events if want_logs else None}
+
+
+def _judge_case(n, task, fk, case, step, stats, log, report, edited):
+    if True:
         stats.inc("verdict." + case.verdict)
         stats.inc("task.%s.%s" % (task, case.verdict))
-        if step.get("mode"):
+        if step.get("mode") and edited is None:
             stats.inc("probe.span_mode.%s" % step["mode"])
         outcomes = []
-        ctx = "step %d task=%s fault=%s verdict=%s%s" % (n, task, fk, case.verdict, (" (" + case.why + ")") if case.why else "")
+        ctx = "step %d task=%s fault=%s%s verdict=%s%s" % (n, task, fk, (" [caller %s after a first, successful evaluation]" % edited) if edited else "",
+                                                         case.verdict, (" (" + case.why + ")") if case.why else "")
         for name, thunk in case.must_return:
             out = _try(thunk)
             stats.inc("calls")
@@ -853,10 +936,6 @@ def execute(plan, want_logs=False):
                     ctx, name, type(out[1]).__name__, core.scrub(str(out[1]))[:120]))
         seams.WARN.take()
         log.add("step", n, task, fk, case.verdict, outcomes)
-    for k, v in fired.items():
-        stats.inc("fault.dev." + k, v)
-    return {"violations": violations, "stats": stats.dump(), "log_digest": log.digest(), "n_events": log.n,
-            "log_events": log.events if want_logs else None}
 
 
 # --------------------------------------------------------------------------------------
